@@ -3,6 +3,8 @@ import numpy as np
 
 from vmon import gen, instr
 
+from vmon.scale import S
+
 ID = 'C13'
 RULE = ('cases = (a) every beamformer name accepted by get_bf_vector (parsed by the monitors own grammar: optional +ban, optional rank-one '
         'prefix, core, chN) against the explicit composition of the primitives (bitwise), (b) apply_beamforming_vector against w^H x '
@@ -19,7 +21,7 @@ CORES = ['pca', 'pca+mvdr', 'scaled_gev_atf+mvdr', 'mvdr_souden', 'rank1_pca+mvd
 
 def plan(tier, seed):
     rng = np.random.default_rng([seed, 113])
-    n = 8 if tier == 'quick' else 80
+    n = S(tier, 8, 80)
     cases, i = [], 0
     for core in CORES:
         for ban in (False, True):
@@ -28,7 +30,7 @@ def plan(tier, seed):
                 cases.append(dict(lane='wrapper', core=core if core != 'ch' else f'ch{int(rng.integers(0, D))}', ban=ban, D=D, F=int(rng.integers(1, 33)),
                                   explicit_ref=bool(rng.integers(0, 2)), rs=[seed, 13, i]))
                 i += 1
-    m = 60 if tier == 'quick' else 600
+    m = S(tier, 60, 600)
     for lane in ('apply', 'stack', 'phase', 'singular'):
         for r in range(m):
             nl = int(rng.integers(0, 3))
@@ -245,6 +247,9 @@ def run_singular(case, R):
     rng = gen.rng_of(case)
     D, F = case['D'], max(2, case['F'])
     Px, Pn = psds(rng, D, (F,), rank=int(rng.integers(1, D + 1)))
+    real_noise = bool(rng.uniform() < 0.3)
+    if real_noise:
+        Pn = np.ascontiguousarray(gen.hpd(rng, D, cond=100.0, lead=(F,), real=True))        # float64 noise PSD, complex target PSD
     sing = rng.uniform(size=F) < 0.35
     sing[int(rng.integers(F))] = True
     sing[int(rng.integers(F))] = False
@@ -256,11 +261,11 @@ def run_singular(case, R):
         elif kinds[f] == 1:
             Pn2[f] = 0; Px2[f] = 0
         elif kinds[f] == 2:
-            v = gen.cnormal(rng, (D, 1)); Pn2[f] = v @ v.conj().T
+            v = gen.cnormal(rng, (D, 1)) if not real_noise else rng.standard_normal((D, 1)); Pn2[f] = v @ v.conj().T
         else:
             Pn2[f, 0, :] = 0; Pn2[f, :, 0] = 0
     ref = int(rng.integers(0, D))
-    info = dict(D=D, F=F, singular_bins=int(sing.sum()))
+    info = dict(D=D, F=F, singular_bins=int(sing.sum()), real_noise_psd=real_noise)
     for which, f in (('souden', lambda px, pn: bf.get_mvdr_vector_souden(px, pn, ref_channel=ref)),
                      ('wmwf', lambda px, pn: bf.get_wmwf_vector(px, pn, reference_channel=ref, distortion_weight=1.0)),
                      ('souden-auto', lambda px, pn: bf.get_mvdr_vector_souden(px, pn)),
@@ -281,6 +286,14 @@ def run_singular(case, R):
         # not detected as singular by LAPACK; exactly singular ones (zero matrix, zero row/column) take the lstsq fallback
         mech = 'undetected-rank-deficient-noise-psd' if (len(badbins) and all(sing[b] and kinds[b] == 2 for b in badbins)) else 'exactly-singular-or-regular-bin'
         R.check('C13.singular', len(badbins) == 0, f'singular/nonfinite/{which.split("-")[0]}/{mech}', f'{which} returns non-finite entries in bins {badbins.tolist()[:6]} (singular kinds {[int(kinds[b]) for b in badbins][:6]})', **info)
+        if which in ('souden', 'wmwf') and np.isfinite(w).all():
+            # and the values of the regular bins are the exact solution Phi_nn^-1 Phi_xx e_ref / (...)
+            g0 = np.nonzero(~sing)[0]
+            phi = np.linalg.solve(Pn2[g0].astype(complex), Px2[g0])
+            lam = np.trace(phi, axis1=-1, axis2=-2)[..., None, None]
+            refv = (phi / lam)[..., ref] if which == 'souden' else (phi / (1.0 + lam))[..., ref]
+            dvv = float(np.abs(w[g0] - refv).max() / np.abs(refv).max())
+            R.check('C13.singular', dvv <= 1e-8, f'singular/regular-bins-wrong/{which}', f'{which}: regular bins next to singular ones deviate from the direct solution by {dvv:.3e}', **info)
         if which in ('souden', 'wmwf'):
             good = ~sing
             wr = f(Px2[good], Pn2[good])
